@@ -539,8 +539,15 @@ fn message_case(ctx: &mut Ctx, case: u64, rng: &mut Rng, scratch: &Scratch) {
 fn heads_ticket_case(ctx: &mut Ctx, case: u64, rng: &mut Rng) {
     // heads
     let mut h = AuthorHeads::default();
+    // half of the sets draw their timestamps from a small pool, so that authors share a timestamp
+    // (what a coarse clock or a bulk import produces), including 0 and the largest value
+    let pool: Vec<u64> = if rng.chance(1, 2) { vec![0, 1, 1_700_000_000_000_000, u64::MAX, rng.next_u64() >> rng.below(60)] } else { vec![] };
     for _ in 0..rng.below(12) {
-        h.insert(AuthorId::from(&rng.fill32()), rng.next_u64() >> rng.below(60));
+        let t = if pool.is_empty() { rng.next_u64() >> rng.below(60) } else { *rng.pick(&pool) };
+        h.insert(AuthorId::from(&rng.fill32()), t);
+    }
+    if !pool.is_empty() && h.len() >= 2 {
+        ctx.count("head_sets_with_shared_timestamps", 1);
     }
     let enc = h.encode(None).unwrap();
     ctx.nontrivial(h64(&enc));
